@@ -238,8 +238,13 @@ def _analyze(ctx: Ctx) -> None:
             updates.setdefault(_acc_key(s.target, txn), []).append(s)
     required = list(FLOW_TOTALS) + ['by_category[]/count', 'by_category[]/total', 'by_merchant[]/count', 'by_merchant[]/total',
                                     'by_month[]']
+    bound = {n.id for n in ast.walk(fi.node) if isinstance(n, ast.Name) and isinstance(n.ctx, ast.Store)}
     for acc in required:
         if acc not in updates:
+            root = acc.split('[')[0]
+            if root not in bound:
+                # the accumulator this rule was confirmed on does not exist any more (totals kept in a dict, a dataclass …): not a verdict
+                ctx.unknown('C06.R3', fi, f'accumulator {root!r} is not a variable of analyze_transactions any more')
             ctx.fail('C06.R3', fi, f'acc:{acc}', f'accumulator {acc} is never updated in the transaction loop')
     for acc, stmts in sorted(updates.items()):
         ids = {body.nid(s) for s in stmts}
